@@ -561,7 +561,7 @@ Definition it_event_number (it : iter) : Z := it_c it * it_step it + it_ss it.
 (* EventIterator.total_events_thrown (exact arithmetic) *)
 Definition it_thrown (st : wstate) (it : iter) : Z :=
   ((it_event_number it + 1) * match thrown st with Some x => x | None => 0 end) / n_events st.
-Inductive iop := INext | IIter.
+Inductive iop := INext | IIter | IRead.   (* IRead: read the accessors of the iterator's current event again *)
 (* what a call delivers: an event (total_events_thrown and all accessors, read from the iterator
    after the call), StopIteration, or nothing (iter(it) returns the iterator itself) *)
 Inductive iout := OEv (thr : Z) (o : per tobs * tobs) | OStop | ONone.
@@ -581,7 +581,11 @@ Definition it_next (st : wstate) (it : iter) : exn + (iter * iout) :=
        inr (it', OEv (it_thrown st it') (ev_obs st (it_data it) c1)).
 (* __iter__ returns self and leaves the position alone *)
 Definition it_op (st : wstate) (it : iter) (x : iop) : exn + (iter * iout) :=
-  match x with INext => it_next st it | IIter => inr (it, ONone) end.
+  match x with
+  | INext => it_next st it
+  | IIter => inr (it, ONone)
+  | IRead => inr (it, OEv (it_thrown st it) (ev_obs st (it_data it) (it_c it)))
+  end.
 Fixpoint it_run (st : wstate) (it : iter) (ops : list iop) : exn + list iout :=
   match ops with
   | [] => inr []
@@ -601,6 +605,35 @@ Definition history (st : wstate) (k : option Z) (whole : bool) (a b s : option Z
   match it_new st kk a b s with
   | inl e => inl e
   | inr it => it_run st it ops
+  end.
+
+(* two live iterators over one opened file, driven by one interleaved history (true = first) *)
+Fixpoint it_run2 (st : wstate) (i1 i2 : iter) (ops : list (bool * iop)) : exn + list iout :=
+  match ops with
+  | [] => inr []
+  | (w, x) :: r =>
+    match it_op st (if w then i1 else i2) x with
+    | inl e => inl e
+    | inr (it', o) =>
+      match it_run2 st (if w then it' else i1) (if w then i2 else it') r with
+      | inl e => inl e
+      | inr os => inr (o :: os)
+      end
+    end
+  end.
+Definition slice_k (st : wstate) (k : option Z) (whole : bool) (a b : option Z) : Z :=
+  let n := n_events st in
+  let start := dflt a 0 in
+  let stop := dflt b n in
+  let start := if start <? 0 then start + n else start in
+  let stop := if stop <? 0 then stop + n else stop in
+  if whole then dflt k n else Z.min (dflt k n) (stop - start).
+Definition history2 (st : wstate) (k : option Z) (w1 : bool) (a1 b1 s1 : option Z) (w2 : bool) (a2 b2 s2 : option Z)
+  (ops : list (bool * iop)) : exn + list iout :=
+  match it_new st (slice_k st k w1 a1 b1) a1 b1 s1, it_new st (slice_k st k w2 a2 b2) a2 b2 s2 with
+  | inr i1, inr i2 => it_run2 st i1 i2 ops
+  | inl e, _ => inl e
+  | _, inl e => inl e
   end.
 
 (* HDF5Reader: slice_range None means the whole file *)
@@ -747,7 +780,8 @@ Inductive query :=
   | QLen (f : nat) | QIter (f : nat) (k : option Z) | QInt (f : nat) (k : option Z) (key : Z)
   | QSlice (f : nat) (k : option Z) (a b s : option Z) | QGen (k : Z) (fs : list Z)
   | QWf (f : nat) (i k : Z) | QWfEv (f : nat) (i : Z)
-  | QHist (f : nat) (k : option Z) (whole : bool) (a b s : option Z) (ops : list iop).
+  | QHist (f : nat) (k : option Z) (whole : bool) (a b s : option Z) (ops : list iop)
+  | QHist2 (f : nat) (k : option Z) (w1 : bool) (a1 b1 s1 : option Z) (w2 : bool) (a2 b2 s2 : option Z) (ops : list (bool * iop)).
 
 Definition counters_of (st : wstate) : list Z := per_list (cntOf st) ++ [nidx st].
 (* run the ops; collect outcome codes and the counters at the end of each session *)
@@ -794,6 +828,11 @@ Definition run_query (sts : list wstate) (q : query) : query_res :=
   | QWfEv f i => match file_waveforms (file f) i with inl e => QErr (exn_code e) | inr rs => QOk (concat rs) end
   | QHist f k whole a b s ops =>
     match history (file f) k whole a b s ops with
+    | inl e => QErr (exn_code e)
+    | inr os => QHistOk (map (fun o => match o with OEv t ob => (fp_obs ob, t) | OStop => (-1, -1) | ONone => (-2, -2) end) os)
+    end
+  | QHist2 f k w1 a1 b1 s1 w2 a2 b2 s2 ops =>
+    match history2 (file f) k w1 a1 b1 s1 w2 a2 b2 s2 ops with
     | inl e => QErr (exn_code e)
     | inr os => QHistOk (map (fun o => match o with OEv t ob => (fp_obs ob, t) | OStop => (-1, -1) | ONone => (-2, -2) end) os)
     end
